@@ -56,6 +56,19 @@ class C01(Prop):
                 g.focus = True
                 g.sticky = rng.choice([0.5, 0.8])
             yield {"kind": "dedup", "src": g.program(), "xseed": rng.getrandbits(32)}
+        for i in range(100 if tier == "quick" else 3000):
+            # small single-accelerator programs over three configurations (alternating / restoring inside a loop)
+            yield {"kind": "dedup", "src": ac.redundancy_program(random.Random(rng.getrandbits(48))), "xseed": rng.getrandbits(32)}
+
+    def extra_search_cases(self, rng, tier):
+        while True:
+            yield {"kind": "dedup", "src": ac.redundancy_program(random.Random(rng.getrandbits(48))), "xseed": rng.getrandbits(32)}
+            g = ac.Gen(random.Random(rng.getrandbits(48)), full=True, depth=2, carried=0.0)
+            g.accs = ac.ACCS
+            g.scope_accs = [g.accs]
+            g.focus = True
+            g.sticky = 0.8
+            yield {"kind": "dedup", "src": g.program(), "xseed": rng.getrandbits(32)}
 
     def impl(self, case):
         try:
@@ -168,7 +181,14 @@ class C01(Prop):
             return "dedup:oracle-only(" + impl_out["unmodelled"] + ")"
         return super().stats_key(case, impl_out)
 
+    def mutants(self, case, rng):
+        return ac.mutants(case, rng) if "src" in case else iter(())
+
     def shrink(self, case):
+        if "src" not in case:
+            return
+        for t in ac.shrink_src(case["src"]):
+            yield dict(case, src=t)
         lines = case["src"].split("\n")
         for i, l in enumerate(lines):
             if "accfg.setup" in l and i + 2 < len(lines) and "accfg.await" in lines[i + 2]:
